@@ -217,6 +217,15 @@ PERSIST_HARNESSES = [
 ]
 
 
+def _bulk_every_item(F):
+    from props.C15 import bulk_load_every_item
+    return bulk_load_every_item(F)
+
+
+MOS.append(MO("O3.5/bulk_load_every_item", "TieredEngine::bulk_load_cold_tier: a refused item of a batch affects no other item — every item reaches HnswBackend::insert on its own and the counters follow the insert's result (same obligation as C15 O15.8)",
+              _bulk_every_item, functions=[("tiered_engine.rs", "bulk_load_cold_tier")]))
+
+
 def run(tier, seed, notes):
     obls = run_mir_obligations("C03", tier, MOS, notes)
     obls += run_kani_group("C03", tier, "lib", MODS, HARNESSES, jobs=6, notes=notes)
